@@ -1032,7 +1032,9 @@ def st_msa(tier):
         else:
             app = draw(st.sampled_from(sorted(MSA_APPS)))
         spec = MSA_APPS[app]
-        n = draw(st.integers(2, 6))
+        # mostly 2..6 sequences; sometimes 11..13 so that row labels reach two digits
+        # (the wrappers name the rows "0", "1", ... "10", ...: order restoration must be numeric)
+        n = draw(st.one_of(st.integers(2, 6), st.integers(2, 6), st.integers(2, 6), st.integers(11, 13)))
         case = {"app": app, "seqtype": seqtype}
         if seqtype == "protein":
             case["seqs"] = draw(st.lists(st.text(PROTEIN_LETTERS, min_size=1, max_size=maxlen), min_size=n, max_size=n))
